@@ -13,6 +13,8 @@
 # limitations under the License.
 
 
+import jax.tree_util as jtu
+
 from genjax._src.core.compiler.interpreters.incremental import Diff, incremental
 from genjax._src.core.generative import (
     Argdiffs,
@@ -162,6 +164,12 @@ class Dimap(Generic[ArgTuple, R, S], GenerativeFunction[S]):
             primals,
             tangents,
         )
+        # constant outputs of the argument mapping come back untagged
+        inner_argdiffs = jtu.tree_map(
+            lambda v: v if Diff.is_diff(v) else Diff.no_change(v),
+            inner_argdiffs,
+            is_leaf=Diff.is_diff,
+        )
         inner_trace: Trace[R] = trace.inner
 
         tr, w, inner_retdiff, bwd_request = self.inner.edit(
@@ -182,6 +190,12 @@ class Dimap(Generic[ArgTuple, R, S], GenerativeFunction[S]):
             None,
             (primals, inner_retval_primals),
             (tangents, inner_retval_tangents),
+        )
+
+        retval_diff = jtu.tree_map(
+            lambda v: v if Diff.is_diff(v) else Diff.no_change(v),
+            retval_diff,
+            is_leaf=Diff.is_diff,
         )
 
         retval_primal: S = Diff.tree_primal(retval_diff)
